@@ -32,6 +32,9 @@ small_prog = st.one_of(
 IDX = st.integers(0, 30)
 
 
+_TABLES0 = None
+
+
 def user_modes(c):
     return c.n_modes - len(c._internal_modes)
 
@@ -65,8 +68,10 @@ class C08Machine(RecordingMixin, RuleBasedStateMachine):
 
     def guarded(self, what, fn, receiver=None, may_raise=()):
         """Run fn; nobody except a successfully mutated receiver may change."""
-        if self.tables0 is None:
-            self.tables0 = self.tables()
+        global _TABLES0
+        if _TABLES0 is None:
+            _TABLES0 = self.tables()      # once per process: corruption must not become the baseline
+        self.tables0 = _TABLES0
         before = [snapshot(c) for c in self.circs]
         sbefore = [tuple(s.s) for s in self.states]
         raised = None
